@@ -21,11 +21,22 @@ def one(sid):
                 return sid, {"error": "patch does not apply"}
         shutil.copy(os.path.join(VERIF, "KNOWN_FINDINGS.txt"), vd)
         res = {}
-        for p in PROPS:
-            r = subprocess.run([os.path.join(VERIF, "bin/sioverif"), "check", p, "--repo", repo, "--verif", vd], env=ENV, capture_output=True, text=True)
-            if r.returncode != 0:
-                v = [l for l in (r.stdout + r.stderr).splitlines() if l.startswith("violation:") or l.startswith("UNDECIDED")]
-                res[p] = {"exit": r.returncode, "lines": [x[:260] for x in v[:3]]}
+        # one load of the program, every property's quick tier (sioverif checkall)
+        r = subprocess.run([os.path.join(VERIF, "bin/sioverif"), "checkall", "--repo", repo, "--verif", vd], env=ENV, capture_output=True, text=True)
+        cur = []
+        for l in (r.stdout + r.stderr).splitlines() if "== C" not in r.stderr else []:
+            pass
+        for l in r.stdout.splitlines():
+            if l.startswith("== C"):
+                p = l.split()[1]; code = int(l.split("exit=")[1])
+                if code != 0:
+                    v = [x for x in cur if x.startswith("violation:") or x.startswith("UNDECIDED")]
+                    res[p] = {"exit": code, "lines": [x[:260] for x in v[:3]]}
+                cur = []
+            else:
+                cur.append(l)
+        if not any(l.startswith("== C19") for l in r.stdout.splitlines()):
+            res["error"] = {"exit": r.returncode, "lines": [(r.stderr or "")[-300:]]}
         return sid, res
     finally:
         shutil.rmtree(d, ignore_errors=True)
